@@ -201,6 +201,12 @@ func TestWire(t *testing.T) {
 		if r.Chance(15) {
 			f, kind = r.Bytes(r.Intn(80)), "random"
 		}
+		if r.Chance(12) { // a header that announces more bytes than the packet has: IHL 6..15 on a 20..59-byte packet
+			n := 20 + r.Intn(40)
+			f, kind = r.Bytes(n), "short-ihl"
+			f[0] = 0x40 | byte(6+r.Intn(10))
+			f[2], f[3] = byte(n>>8), byte(n)
+		}
 		ans := implDecIP(f)
 		s.Op("decip b="+Hex(f), ans, ans[:2] == "ok")
 		panicFind(s, "decip b="+Hex(f), ans, "C13", "C10")
